@@ -6,6 +6,7 @@ pub mod c05;
 pub mod c06;
 pub mod c07;
 pub mod c08;
+pub mod c09;
 pub mod c10;
 pub mod c11;
 pub mod c12;
@@ -20,6 +21,7 @@ pub fn dispatch(engine: &str, sh: &mut Shard) -> bool {
         "c06" => c06::run(sh),
         "c07" => c07::run(sh),
         "c08" => c08::run(sh),
+        "c09" => c09::run(sh),
         "c10" => c10::run(sh),
         "c11" => c11::run(sh),
         "c12" => c12::run(sh),
